@@ -4,7 +4,7 @@
      <id> P <v> <hr> <seek> <cipher 0..4> <id0|-> <id1|-> <nops> <op>... Q <k> (<n> <g> <v|k>)*k
    ops:  A | U n g <pobj> <big> | C k (n g)*k m <pobj>*m <big> | O n g <dict> nf (<namehex> <dict>)*nf
          | W <hex> <0|1> | S <big> | Z <cat> <0 | 1 <info>>
-   pobj: o <value> | s <dict> <hex>
+   pobj: o <value> | s <dict> <hex> <big>
    values (prefix code): n t f i<dec> r<text> N<hex> S<hex> A<k> v*k D<k> (<hexkey> v)*k R<n>.<g>
 
    Output:  <id> result ok | <id> result err <opindex|init> <class>
@@ -60,7 +60,7 @@ let parse_dict ts = match parse_value ts with
 let parse_pobj ts = match ts with
   | "o" :: r -> let (v, r') = parse_value r in (PObj v, r')
   | "s" :: r -> let (d, r') = parse_dict r in
-    (match r' with h :: r'' -> (PStream (d, bytes_of_hex h), r'') | [] -> raise (Bad "pobj"))
+    (match r' with h :: b :: r'' -> (PStream (d, bytes_of_hex h, b = "1"), r'') | _ -> raise (Bad "pobj"))
   | _ -> raise (Bad "pobj")
 
 (* filter encoders as a table: (filter name, input) -> output, from the harness *)
